@@ -756,6 +756,16 @@ class Facts(Walker):
                 return True
             if last in REAL_SANITISERS:
                 return False
+            # a helper of the repository every return of which takes the real part (x.real / np.real(x)) hands back a real value whatever it was given
+            try:
+                callee = self._resolve(node.func)
+            except Exception:
+                callee = None
+            if isinstance(callee, Func):
+                rets = [r.value for r in ast.walk(callee.node) if isinstance(r, ast.Return) and r.value is not None]
+                if rets and all((isinstance(v, ast.Attribute) and v.attr == "real") or
+                                (isinstance(v, ast.Call) and ast.unparse(v.func).split(".")[-1] in REAL_SANITISERS) for v in rets):
+                    return False
         if isinstance(node, ast.Attribute) and node.attr == "real":
             return False
         for n in ast.iter_child_nodes(node):
